@@ -46,7 +46,7 @@ def boundary_timestamps(rng, thorough):
     return sorted(ts)
 
 
-def routed_vs_unrouted(P, Q, stamps):
+def routed_vs_unrouted(P, Q, stamps, direct=False):
     """Real layer: rollup at P built by the layer's own materialization statement, query at Q.
     Returns (used_preagg, routed_rows, base_rows, sql)."""
     from sidemantic import Dimension, Metric, Model, PreAggregation, SemanticLayer
@@ -63,9 +63,14 @@ def routed_vs_unrouted(P, Q, stamps):
         con.execute("INSERT INTO ev VALUES (?, ?, ?)", [i, ts_of(t), 1 + i * 10])
     pre = model.pre_aggregations[0]
     con.execute(f"CREATE TABLE {pre.get_table_name('ev')} AS {pre.generate_materialization_sql(model)}")
-    kw = dict(metrics=["ev.total", "ev.n"], dimensions=[f"ev.created__{Q}"])
-    s1 = layer.compile(use_preaggregations=True, **kw)
-    s0 = layer.compile(use_preaggregations=False, **kw)
+    kw = dict(metrics=["ev.total", "ev.n"], dimensions=[f"ev.created__{g}" for g in ([Q] if isinstance(Q, str) else Q)])
+    if direct:      # granularity names outside the validation whitelist reach the matcher only through the generator itself
+        from sidemantic.sql.generator import SQLGenerator
+        s1 = SQLGenerator(layer.graph, dialect="duckdb").generate(use_preaggregations=True, **kw)
+        s0 = SQLGenerator(layer.graph, dialect="duckdb").generate(use_preaggregations=False, **kw)
+    else:
+        s1 = layer.compile(use_preaggregations=True, **kw)
+        s0 = layer.compile(use_preaggregations=False, **kw)
     return "used_preagg=true" in s1, con.execute(s1).fetchall(), con.execute(s0).fetchall(), s1
 
 
@@ -142,13 +147,52 @@ def run(ck: Check):
             ck.fail_input(f"query at granularity {q} served from a {p} rollup returns different rows than the base table",
                           {"Q": q, "P": p, "timestamps": data, "timestamps_iso": [str(ts_of(t)) for t in data],
                            "routed_rows": duck.show(r1), "base_rows": duck.show(r0), "routed_sql": sql, "used_preagg": used})
+    # granularity names outside the hierarchy that the engine knows (sub-hour): a query at such a granularity must not be
+    # served from any rollup (the rollup is coarser than the query)
+    for q in ("minute", "second"):
+        for p in G:
+            data = [1735689600 + 61, 1735689600 + 125, 1735689600 + 3600 + 1, 1735689600 + 3600 + 59, 1735689600 + 86400 + 7]
+            try:
+                used, r1, r0, sql = routed_vs_unrouted(p, q, data, direct=True)
+            except Exception:  # noqa: BLE001 — rejected by the generator: not served
+                continue
+            routed_checked += 1
+            if not duck.rows_equal(r1, r0):
+                ck.fail_input(f"query at the sub-hour granularity {q} served from a {p} rollup returns different rows than the base table",
+                              {"Q": q, "P": p, "timestamps": data, "direct": True, "routed_rows": duck.show(r1), "base_rows": duck.show(r0), "routed_sql": sql, "used_preagg": used})
+    # every rollup granularity x every ordered pair of requested granularities of the one time dimension: the query may
+    # be served from the rollup only if EVERY requested granularity is (the matcher is shown only one of them)
+    multi = 0
+    for p in G:
+        for q1 in G:
+            for q2 in G:
+                if q1 == q2:
+                    continue
+                data = [1735603200, 1735689600 + 7200, 1735689600 - 1, 1738368000, 1706745600, 1704067200 - 86400 * 3, 1704067200 + 5]
+                for q in (q1, q2):
+                    w = cal.witness(p, q)
+                    if w is not None:
+                        data += [w, w + 3600, cal.trunc(p, w), cal.trunc(p, w) - 1]
+                try:
+                    used, r1, r0, sql = routed_vs_unrouted(p, [q1, q2], data)
+                except Exception as e:
+                    ck.fail_input(f"query at {q1},{q2} over a {p} rollup raises {e!r}", {"Q": [q1, q2], "P": p, "timestamps": data})
+                    continue
+                multi += 1
+                if used and table is not None and not (table[(q1, p)] and table[(q2, p)]):
+                    unsound.append(([q1, q2], p))
+                if not duck.rows_equal(r1, r0):
+                    ck.fail_input(f"query at granularities {q1},{q2} served from a {p} rollup returns different rows than the base table",
+                                  {"Q": [q1, q2], "P": p, "timestamps": data, "timestamps_iso": [str(ts_of(t)) for t in data],
+                                   "routed_rows": duck.show(r1), "base_rows": duck.show(r0), "routed_sql": sql, "used_preagg": used})
+    routed_checked += multi
     for (q, p) in unsound:
         if not any(f["replay"].get("Q") == q and f["replay"].get("P") == p for f in ck.failing):
             ck.obligation(f"calendar soundness of accepted pair Q={q}, P={p}", False, "DATE_TRUNC composition differs but routed rows did not")
 
     ck.coverage.update({
         "evaluations": len(stamps) * 6 + len(pairs) + routed_checked, "distinct_nontrivial": len(stamps),
-        "rule": "36 (Q,P) pairs exhaustive via translator; trunc compared with DuckDB on month/quarter/year/ISO-week/leap-day boundaries ±1s of 1995–2030 (thorough 1900–2100) plus century years and uniform random timestamps in years 1–9000; every accepted pair executed routed vs unrouted on DuckDB; non-trivial = timestamp within 1 day of a period boundary or random",
+        "rule": "36 (Q,P) pairs exhaustive via translator; trunc compared with DuckDB on month/quarter/year/ISO-week/leap-day boundaries ±1s of 1995–2030 (thorough 1900–2100) plus century years and uniform random timestamps in years 1–9000; every accepted pair, and every rollup granularity x ordered pair of requested granularities (180), executed routed vs unrouted on DuckDB; non-trivial = timestamp within 1 day of a period boundary or random",
         "exhaustive": True, "pairs_accepted_by_code": len(acc), "pairs_routed_and_compared": routed_checked,
         "traces_validated_against_impl": len(pairs) + routed_checked,
         "samples": [{"g": "month", "t": stamps[len(stamps) // 2], "iso": str(ts_of(stamps[len(stamps) // 2]))}, {"pair_QP": acc[:3]}],
@@ -159,6 +203,6 @@ def run(ck: Check):
 
 def replay(ck: Check, rp):
     r = rp.get("replay", rp)
-    used, r1, r0, sql = routed_vs_unrouted(r["P"], r["Q"], r["timestamps"])
+    used, r1, r0, sql = routed_vs_unrouted(r["P"], r["Q"], r["timestamps"], direct=bool(r.get("direct")))
     print("routed:", duck.show(r1), "base:", duck.show(r0))
     return 0 if duck.rows_equal(r1, r0) else 1
